@@ -151,6 +151,9 @@ class G:
         return self.adv(allow_ws_ctl=ctl)
 
     def text_with_refs(self, tag="t"):
+        if self.names and self.P.get("p_refs_only", 0) and self.p("p_refs_only"):
+            # nothing but references, back to back
+            return "".join("${%s}" % self.pick(self.names) for _ in range(self.integer(1, 3)))
         s = self.text(tag)
         if self.names and self.p("p_text_ref", 0.25):
             k = self.integer(1, 2)
